@@ -150,15 +150,17 @@ package martian
 //@   ensures result1 != nil ==> result0 == nil
 
 //@ func link
-//@   serves C02
+//@   serves C02 C03
 //@   requires tableIdle()
 //@   modifies ctxmu.wheld, ctxs[req]
 //@   ensures[adds-exactly-this-association] has(ctxs, req) && ctxs[req] == ctx && tableIdle()
+//@   at mapupdate 0 before assert[context-table-written-only-under-the-write-lock; C02 C03] ctxmu.wheld
 //@ func unlink
-//@   serves C02
+//@   serves C02 C03
 //@   requires tableIdle()
 //@   modifies ctxmu.wheld, ctxs[req]
 //@   ensures[removes-exactly-this-association] !has(ctxs, req) && tableIdle()
+//@   at call 0 of delete before assert[context-table-written-only-under-the-write-lock; C02 C03] ctxmu.wheld
 //@ func NewContext
 //@   serves C02
 //@   requires tableIdle()
@@ -210,6 +212,7 @@ package martian
 //@   ensures[one-upstream-contact] !ctx.skipRoundTrip ==> nUp == old(nUp) + 1
 //@   ensures[response-or-error] (result1 == nil) == (result0 != nil)
 //@   ensures result0 != nil ==> result0.Body != nil && result0.Header != nil
+//@   at call 0 of RoundTrip before assert[the-request-itself-goes-upstream-nothing-tied-to-this-call; C01] arg0 == req
 
 //@ func (*Proxy).handle
 //@   serves C01 C02 C03 C05 C07 C18
@@ -239,8 +242,11 @@ package martian
 //@   at call 0 of ModifyRequest before assert[secure-session-forces-https] session.secure ==> req.URL.Scheme == "https"
 //@   at call 0 of ModifyRequest before assert[secure-session-request-carries-tls-state] session.secure ==> req.TLS != nil
 //@   at call 0 of ModifyRequest before assert[insecure-session-is-http] !session.secure ==> req.URL.Scheme == "http"
+//@   at call 0 of ModifyRequest before assert[a-session-on-a-tls-connection-is-secure; C05] (typeis(sconn, *tls.Conn) || (typeis(sconn, *trafficshape.Conn) && as(sconn, *trafficshape.Conn).gwrapsTLS)) ==> session.secure
+//@   ensures[secure-flag-is-sticky; C05] old(ctx.session.secure) ==> ctx.session.secure
 //@   at call 0 of ModifyRequest before assert[authority-filled-from-host-header] req.URL.Host != "" || req.Host == ""
 //@   at call 0 of roundTrip before assert[no-upstream-contact-after-a-hijack; C02] !session.hijacked
+//@   at call 0 of NewResponse before assert[a-synthesized-502-has-no-body-so-its-end-is-known; C03] arg0 == 502 && ref(arg1) == nil
 //@   at call 0 of ModifyResponse before assert[no-response-modifier-after-a-hijack; C02] !session.hijacked
 //@   at call 0 of ModifyResponse before assert[same-context-on-both-sides] res.Request == req && has(ctxs, req) && ctxs[req] == ctx && nRes == res0
 //@   at call 0 of Write before assert[response-modifier-ran-before-the-write] nRes == res0 + 1 && nWrite == wr0
@@ -283,6 +289,7 @@ package martian
 //@   ensures[connection-and-response-or-error] result2 == nil ==> result0 != nil && result1 != nil && result0.Body != nil && result0.Header != nil
 //@   ensures[error-returns-nothing] result2 != nil ==> result0 == nil && result1 == nil
 //@   ensures[direct-connect-answers-200] p.proxyURL == nil && result2 == nil ==> result0.StatusCode == 200 && result0.Request == req
+//@   ensures[the-connect-response-belongs-to-this-request] result2 == nil ==> result0.Request == req
 
 // tgtW: the buffered writer towards the tunnel target; lastFlushed: the writer flushed last. Whatever still sits in the
 // target writer when the tunnel ends has to be flushed BEFORE the target connection is closed.
@@ -296,7 +303,9 @@ package martian
 //@   at entry 0 before set tgtW = nil
 //@   at call 0 of NewWriter after set tgtW = result
 //@   at call all of Flush after set lastFlushed = self
+//@   at call all of Write before assert[nothing-is-written-to-a-hijacked-connection; C02] !session.hijacked
 //@   at call all of Close before assert[target-writer-flushed-before-the-target-connection-is-closed; C04] tunnelUp && self == tunnelConn && tgtW != nil ==> lastFlushed == tgtW
+//@   ensures[secure-flag-is-sticky; C05] old(session.secure) ==> session.secure
 //@   ensures[after-a-502-the-connection-keeps-serving; C03] p.mitm == nil && !tunnelUp && !session.hijacked && !wroteErr && !brw.Writer.gFailed ==> result == nil
 //@   requires proxyReady(p) && ctxIdle(ctx) && sessionIdle(session) && session == ctx.session && conn != nil && brw != nil && brw.Writer != nil && brw.Reader != nil
 //@   requires req != nil && req.URL != nil && req.Header != nil && has(ctxs, req) && ctxs[req] == ctx && allocated(req)
@@ -370,6 +379,7 @@ package martian
 //@   ensures[closing-signalled-exactly-once] chanClosedN == old(chanClosedN) + 1
 //@   ensures[lock-released] !p.connsMu.held
 //@   at call 0 of close after set chanClosedN = chanClosedN + 1
+//@   at call 0 of Wait before assert[waits-with-the-registration-lock-held-so-no-handler-registers-meanwhile] p.connsMu.held
 //@ ghost var chanClosedN int
 
 // nAccepted / nHanded: connections returned by Accept / passed to a handler goroutine (which closes them, see
@@ -478,3 +488,9 @@ package martian
 //@   modifies ctx.mu.rheld
 //@   ensures ctxIdle(ctx) && result1 == (ctx.vals != nil && has(ctx.vals, key)) && (result1 ==> result0 == ctx.vals[key]) && (!result1 ==> result0 == nil)
 //@ pred ctxOf(req *http.Request) = ctxs[req]
+
+// The request is read through the connection's own buffered reader: a second buffer on top of it would swallow the
+// bytes of pipelined requests that were read ahead.
+//@ func (*Proxy).readRequest$1
+//@   serves C01
+//@   at call 0 of ReadRequest before assert[requests-are-read-through-the-connections-one-buffered-reader] arg0 == brw.Reader
